@@ -82,6 +82,12 @@ type Case struct {
 	// against desync.NewHTTPHandler over a LocalStore). Faults of kind has/store are HEAD/PUT requests there.
 	Target string `json:"target,omitempty"`
 	Unc    bool   `json:"unc,omitempty"` // local, s3: uncompressed store
+	// copy: the source store. "" = dx.MemStore (chunks carry plain data only); "local" = desync.LocalStore
+	// (chunks arrive in storage form: compressed, or plain when SrcUnc); SrcSkip = the source does not
+	// verify, so the plain form of a chunk is not materialised before it is handed to the target
+	Src     string `json:"src,omitempty"`
+	SrcUnc  bool   `json:"src_unc,omitempty"`
+	SrcSkip bool   `json:"src_skip,omitempty"`
 	// local: the prefix directory of chunk BlockSel (mod count) is a regular file, so that the
 	// store cannot create the chunk (MkdirAll / Stat fail with ENOTDIR)
 	Block    bool `json:"block,omitempty"`
@@ -97,12 +103,14 @@ var targetMix = func() []string {
 	var m []string
 	for i := 0; i < 100; i++ {
 		switch {
-		case i%10 == 3:
+		case i%20 == 3 || i == 53:
 			m = append(m, "local")
 		case i%25 == 7:
 			m = append(m, "s3")
 		case i%25 == 12:
 			m = append(m, "http")
+		case i%25 == 18:
+			m = append(m, "http-plain")
 		case i%50 == 21:
 			m = append(m, "short")
 		default:
@@ -264,12 +272,26 @@ func genCase(t *rapid.T) Case {
 	if c.Op == "chop" || c.Op == "make" || c.Op == "copy" || c.Op == "stream" {
 		c.Target = rapid.SampledFrom(targetMix).Draw(t, "target")
 	}
+	if c.Op == "copy" && rapid.IntRange(0, 3).Draw(t, "srckind") == 0 {
+		c.Src = "local"
+		c.SrcUnc = rapid.Bool().Draw(t, "srcunc")
+		c.SrcSkip = rapid.IntRange(0, 2).Draw(t, "srcskip") == 0
+	}
+	if c.Src != "" && (c.Target == "" || c.Target == "mem") && !large {
+		// a LocalStore source costs a file per chunk
+		if lim := int(c.Sizes.Avg) * rapid.IntRange(1, 40).Draw(t, "smult"); maxLen > lim {
+			maxLen = lim
+		}
+	}
 	if c.Target != "" && c.Target != "mem" {
 		// real stores cost a file or a request per chunk: keep these inputs small
 		if lim := int(c.Sizes.Avg) * rapid.IntRange(1, 40).Draw(t, "tmult"); maxLen > lim && !large {
 			maxLen = lim
 		}
 		c.Unc = c.Target != "http" && rapid.Bool().Draw(t, "unc")
+		if c.Target == "http-plain" { // the compressed naming is the default and the interesting one
+			c.Unc = rapid.IntRange(0, 3).Draw(t, "punc") == 0
+		}
 		c.Retry = rapid.SampledFrom([]int{0, 0, 1, 3}).Draw(t, "retry")
 	}
 	if c.Target == "short" {
@@ -495,7 +517,7 @@ func run(c Case) (o hx.Outcome) {
 		}
 	}
 	dst.OnCall, src.OnCall = yield, yield
-	realTarget := (c.Target == "local" || c.Target == "s3" || c.Target == "http") && op != "storage"
+	realTarget := (c.Target == "local" || c.Target == "s3" || c.Target == "http" || c.Target == "http-plain") && op != "storage"
 	var tdir string
 	if realTarget {
 		tdir = hx.Scratch("c06t")
@@ -611,6 +633,35 @@ func run(c Case) (o hx.Outcome) {
 				src.Put(ch.ID, blob[ch.Start:ch.Start+ch.Size])
 			}
 		}
+		var from desync.Store = src
+		srcFmt := "plain"
+		if c.Src == "local" {
+			sdir := hx.Scratch("c06src")
+			defer os.RemoveAll(sdir)
+			sv := dirView{dir: sdir, unc: c.SrcUnc}
+			for _, ch := range idx.Chunks {
+				if !missing[ch.ID] {
+					sv.put(ch.ID, blob[ch.Start:ch.Start+ch.Size])
+				}
+			}
+			ls, err := desync.NewLocalStore(sdir, desync.StoreOptions{Uncompressed: c.SrcUnc, SkipVerify: c.SrcSkip})
+			if err != nil {
+				panic(err)
+			}
+			from = frontedSource{front: src, inner: ls}
+			srcFmt = map[bool]string{false: "compressed", true: "uncompressed"}[c.SrcUnc]
+			if c.SrcSkip {
+				o.Class("copy:src-storage-only")
+			}
+		}
+		dstFmt := map[bool]string{false: "compressed", true: "uncompressed"}[c.Unc && tg.kind != "http"]
+		if tg.kind == "mem" {
+			dstFmt = "plain"
+		}
+		o.Class("copy:src-"+srcFmt+":dst-"+dstFmt, "copy:src-"+srcFmt+":dst-"+dstFmt+":"+tg.kind)
+		if srcFmt != "plain" && dstFmt != "plain" && srcFmt != dstFmt {
+			o.Class("copy:src-format≠dst-format")
+		}
 		for id := range missing {
 			// S3Store.HasChunk answers "absent" when its HEAD fails: with a scheduled HEAD fault a
 			// prefilled chunk may be fetched from the source all the same
@@ -621,7 +672,7 @@ func run(c Case) (o hx.Outcome) {
 		if len(missing) > 0 {
 			o.Class("src-missing")
 		}
-		j.err = desync.Copy(ctx, ids, src, ws, n, desync.NullProgressBar{})
+		j.err = desync.Copy(ctx, ids, from, ws, n, desync.NullProgressBar{})
 		hits = restore()
 	case "stream":
 		ck, err := desync.NewChunker(bytes.NewReader(blob), sz.Min, sz.Avg, sz.Max)
@@ -686,7 +737,7 @@ func run(c Case) (o hx.Outcome) {
 		if c.Unc && tg.kind != "http" {
 			o.Class("target:uncompressed")
 		}
-		if tg.kind == "s3" || tg.kind == "http" {
+		if tg.kind == "s3" || tg.kind == "http" || tg.kind == "http-plain" {
 			o.Class(fmt.Sprintf("%s:error-retry=%d", tg.kind, clamp(c.Retry, 0, 5)))
 			if len(tgDelivered) > 0 {
 				o.Class(tg.kind + ":fault-delivered")
@@ -925,6 +976,7 @@ var spec = &hx.Spec[Case]{
 		"Copy over the index's IDs incl. duplicates, ChunkStream, ChunkStorage used directly with retries; thorough: desync make/chop/cache/tar -i against a harness HTTP store}; target optionally prefilled; " +
 		"target store of chop/make/copy/stream in {MemStore; desync.LocalStore in a scratch directory (compressed/uncompressed; optionally with a regular file in place of a prefix directory; optionally in a child process under RLIMIT_FSIZE so that chunk file writes are cut short); " +
 		"desync.S3Store through the in-process fake S3 (compressed/uncompressed, ErrorRetry 0/1/3, scripted 403 on the k-th PUT/HEAD); desync.RemoteHTTP -> desync.NewHTTPHandler -> LocalStore (ErrorRetry 0/1/3, scripted 500 on the k-th PUT/HEAD)}, judged on the backing files/objects read through a back door and, after success, by reading every chunk back through the store's own GetChunk (bytes == input range); " +
+		"Copy sources: MemStore (plain chunks) or LocalStore compressed/uncompressed, verifying or not (storage form only), x every target format incl. an HTTP object store that keeps PUT bodies verbatim (compressed or uncompressed naming); " +
 		"chunk sizes incl. triples with max above 256 KiB (512 KiB..1 MiB, inputs of a few chunks) so that chunks larger than desync's default maximum are stored and read back; " +
 		"index op: the reference index written through an io.Writer failing after k bytes, or through RemoteHTTPIndex (desync's HTTPIndexHandler over LocalIndexStore / a plain handler; faulted PUT attempts x ErrorRetry 0/1/3 x fault mode), S3IndexStore, SFTPIndexStore, LocalIndexStore; nil => stored bytes decode to exactly that index, unabsorbed fault => error, nothing partial under the name after an error; " +
 		"fault schedule = set of (store, call kind has/store/get, call number k) that fail (CLI: the k-th HEAD/PUT/GET answers 500); ChopFile also on a file with one bit flipped after indexing; perturbation vector for chop.job/copy.job/chunkstream.job and the store callbacks); " +
@@ -948,6 +1000,9 @@ var spec = &hx.Spec[Case]{
 		"scheduled-not-delivered", "dup-race-possible", "same-id-asked-twice", "flip", "flip-in-duplicated-chunk", "prefilled", "prefilled-all", "src-missing", "success", "error-returned",
 		"perturbed:chop.job", "perturbed:copy.job", "perturbed:chunkstream.job", "storage:retry-after-failure", "empty-index",
 		"target:mem", "target:local", "target:s3", "target:http", "target:uncompressed", "s3:error-retry=0", "s3:error-retry=1", "s3:error-retry=3", "http:error-retry=0", "http:error-retry=3",
+		"target:http-plain", "readback:http-plain", "copy:src-uncompressed:dst-compressed:http-plain", "copy:src-compressed:dst-uncompressed:http-plain", "copy:src-uncompressed:dst-compressed:http",
+		"copy:src-uncompressed:dst-compressed", "copy:src-compressed:dst-uncompressed", "copy:src-compressed:dst-compressed", "copy:src-uncompressed:dst-uncompressed", "copy:src-plain:dst-compressed",
+		"copy:src-format≠dst-format", "copy:src-storage-only",
 		"sizes:max>256KiB", "chunk>256KiB", "readback:desync-getchunk", "readback:local", "readback:s3", "readback:http", "chunk>256KiB:compressed-target",
 		"chunk>256KiB:compressed-target:local", "chunk>256KiB:compressed-target:s3", "chunk>256KiB:compressed-target:http", "chunk>256KiB:uncompressed-target",
 		"index-target:http", "index-target:http-plain", "index-target:s3", "index-target:local", "index-target:sftp", "index-target:http:first-put-fails-then-ok", "index-target:http:all-attempts-fail",
@@ -1095,6 +1150,36 @@ func TestEnumTargets(t *testing.T) {
 						return
 					}
 				}
+			}
+		}
+	}
+	// Copy: every source format x every target format
+	type scfg struct {
+		src       string
+		unc, skip bool
+	}
+	for si, sc := range []scfg{{"", false, false}, {"local", false, false}, {"local", false, true}, {"local", true, false}, {"local", true, true}} {
+		for ti, cfg := range []tcfg{{"local", false, 0}, {"local", true, 0}, {"s3", false, 1}, {"s3", true, 0}, {"http", false, 0}, {"http-plain", false, 3}, {"http-plain", true, 0}, {"mem", false, 0}} {
+			if !mine() {
+				continue
+			}
+			c := Case{Op: "copy", Pieces: b.Pieces, Sizes: b.Sizes, N: 1 + (si+ti)%3, Target: cfg.target, Unc: cfg.unc, Retry: cfg.retry, Src: sc.src, SrcUnc: sc.unc, SrcSkip: sc.skip, PrefillEvery: []int{0, 0, 3}[(si+ti)%3]}
+			cases++
+			if !hx.Case(t, spec, c) {
+				return
+			}
+		}
+	}
+	// http-plain target for the other operations
+	for i, op := range []string{"chop", "make", "stream"} {
+		for _, unc := range []bool{false, true} {
+			if !mine() {
+				continue
+			}
+			c := Case{Op: op, Pieces: b.Pieces, Sizes: b.Sizes, N: 1 + i, Target: "http-plain", Unc: unc, Retry: []int{0, 3}[i%2], Faults: [][]Fault{nil, {{Store: "dst", Kind: "store", K: 2}}}[i%2]}
+			cases++
+			if !hx.Case(t, spec, c) {
+				return
 			}
 		}
 	}
